@@ -7,7 +7,7 @@
 (* e = 0 when the driver found it exactly representable and e = 1 otherwise.  The operators below compute    *)
 (* enclosures: additions, multiplications by integers, halving, max are exact on exact inputs (so e stays 0   *)
 (* and the stated value must be EQUAL); divisions are floors with the remainder deciding exactness;           *)
-(* MSS*MSS/cwnd is a 38-bit long division; the cube is enclosed from 2^-8 s roundings of its argument.        *)
+(* MSS*MSS/cwnd is a 38-bit long division; the cube is enclosed from 2^-12 s (2^-8 s above 8 s) roundings.      *)
 (* Stated tolerance: |stated - computed| <= e(stated) + e(computed); for one Reno congestion-avoidance step    *)
 (* from an inexact window that is at most 5 units = 0.005 byte.                                               *)
 EXTENDS TcpSender, Json
@@ -44,14 +44,20 @@ FIntOver(m, a) ==
   ELSE LET res == ShlDiv(m * SB, 10, a[1]) IN
        <<res[1], (IF res[2] = 0 THEN 0 ELSE 1) + a[2] * (res[1] \div Lo(a) + 1)>>
 FAbs(a) == <<Abs(a[1]), a[2]>>
-FMax(a, b) == <<Max2(a[1], b[1]), Max2(a[2], b[2])>>
-FMin(a, b) == <<Min2(a[1], b[1]), Max2(a[2], b[2])>>
+MkX(lo, hi) == IF lo = hi THEN <<lo, 0>> ELSE Mk(lo, hi)
+FMax(a, b) == MkX(Max2(Lo(a), Lo(b)), Max2(Hi(a), Hi(b)))
+FMin(a, b) == MkX(Min2(Lo(a), Lo(b)), Min2(Hi(a), Hi(b)))
 FMayLe(a, b) == Lo(a) <= Hi(b)
 FMayGt(a, b) == Hi(a) > Lo(b)
 FNear(x, y) == Abs(x[1] - y[1]) <= x[2] + y[2]
-\* cube of a time (2^-20 s) as bytes (2^-10): enclose |t| between multiples of 2^-8 s (needs |t| < 100 s)
-CubeDn(x) == LET c == x \div 4096 IN 2 * (((c * c) \div 32768) * c)
-CubeUp(x) == LET c == x \div 4096 + 1 IN 2 * (((c * c) \div 32768 + 1) * c)
+\* cube of a time (2^-20 s) as bytes (2^-10): |t| is enclosed between multiples of 2^-12 s below 8 s and of 2^-8 s
+\* from there to 100 s (beyond: unknown); every product stays below 2^31
+CubeDn(x) == IF x < 8388608
+             THEN LET c == x \div 256 IN (((c * c) \div 32768) * c) \div 2048
+             ELSE LET c == x \div 4096 IN 2 * (((c * c) \div 32768) * c)
+CubeUp(x) == IF x < 8388608 - 256
+             THEN LET c == x \div 256 + 1 IN (((c * c) \div 32768 + 1) * c) \div 2048 + 1
+             ELSE LET c == x \div 4096 + 1 IN 2 * (((c * c) \div 32768 + 1) * c)
 FCube(a) ==
   IF Hi(a) >= 104857600 \/ Lo(a) <= -104857600 THEN <<0, 1073741823>>
   ELSE IF Lo(a) >= 0 THEN Mk(CubeDn(Lo(a)), CubeUp(Hi(a)))
